@@ -23,7 +23,7 @@ DEF_VALS = (None, 1, "s", [1, 2])
 USER_OPTS = ("absent", "same", 2, 1.0, True, "other", [3], "same-array-other-element-type")
 DEF_VALS_Q = (None, 1, [1, 2])
 USER_OPTS_Q = ("absent", "same", 2, 1.0, "same-array-other-element-type")
-STRUCT = ("none", "t_scalar", "a_table", "u_scalar", "user_only")
+STRUCT = ("none", "t_scalar", "a_table", "u_scalar", "user_only", "empty_tables")
 BOUNDS = {
     "quick": {"paths": [".".join(p) for p in PATHS_Q], "default_values": "absent/1/[1,2] per path (81 docs)", "user_options": "absent/same/2/1.0/[1.0, 2.0] per path x 5 structural variants", "styles": "style of default and user doc rotate through the 9 combinations by case index", "first_run": "every default doc in every style"},
     "thorough": {"paths": [".".join(p) for p in PATHS_Q], "default_values": "absent/1/'s'/[1,2] per path (256 docs)", "user_options": "absent/same/2/1.0/true/'other'/[3] per path x 5 structural variants", "styles": "3 style combinations per pair (rotating)", "first_run": "every default doc over 6 paths (4096) in every style"},
@@ -33,7 +33,7 @@ RULE = (
     "non-trivial = pairs where the user sets at least one key the default also sets (override), with a different type, or a structural conflict, or a user-only key below the top level"
 )
 ASSUMPTIONS = [
-    "arrays of tables ([[x]]) and multi-line values are outside the stated grammar and not generated",
+    "arrays of tables ([[x]]) are outside the stated grammar and not generated; multi-line strings/arrays, quoted and dotted keys, CRLF, dates and special floats only occur in the 22 hand-written user documents (compared through JSON with default=str)",
     "values are compared type-strictly through JSON (1, 1.0 and true are different values)",
     "tomlkit is the trusted TOML reader for the user's and the default document when computing the expected overlay (documents are generated from dicts and re-read by tomlkit to confirm the rendering, else the case is a harness error)",
 ]
@@ -119,7 +119,7 @@ def overlay(d, u):
 
 
 def js(x):
-    return json.dumps(x, sort_keys=True)
+    return json.dumps(x, sort_keys=True, default=str)
 
 
 def default_docs(paths, dvals=DEF_VALS):
@@ -164,6 +164,13 @@ def user_docs(paths, dflt, opts):
                     u.setdefault("t", {})["u"] = 7
                 else:
                     continue
+            elif st == "empty_tables":
+                # tables that set nothing are values too: a user-only empty table is kept, an empty table
+                # over a default scalar replaces it (seeded: _merge skipped empty user tables)
+                u["a"] = {}
+                u["e"] = {}
+                if isinstance(u.get("t"), dict) or "t" not in u:
+                    u.setdefault("t", {})["w"] = {}
             elif st == "user_only":
                 u["only"] = "mine"
                 if isinstance(u.get("t"), dict) or "t" not in u:
@@ -182,13 +189,14 @@ def nontrivial(dflt, user, meta):
     return False
 
 
-def run_pair(app, dflt, user, sd, su):
+def run_pair(app, dflt, user, sd, su, utxt=None):
     """-> list of problems"""
     cfgdir = dirs.get_config_dir(app)
     path = os.path.join(cfgdir, f"{app}.toml")
     dtxt = render(dflt, sd)
-    utxt = render(user, su)
-    with open(path, "w") as f:
+    if utxt is None:
+        utxt = render(user, su)
+    with open(path, "w", newline="") as f:
         f.write(utxt)
     before = open(path, "rb").read()
     try:
@@ -258,6 +266,62 @@ def first_run(app, dflt, style):
     return probs
 
 
+# hand-written USER documents that exercise TOML syntax a line-oriented shortcut would get wrong; the
+# expected user dict is what tomlkit (the trusted reader) makes of the text
+TRICKY_USER = (
+    'note = """\n# Weekly summary\n## generated\nbody"""\n',
+    "note = '''\n# literal\n[t]\na = 9\n'''\n",
+    'a = 2 # a = 3\n# a = 4\n',
+    '# [t]\n# a = 5\n[t]\n# b = 6\na = 7 # trailing [t.u]\n',
+    'a = "x # not a comment"\n[t]\nb = "# neither"\n',
+    '"a" = 2\n[\'t\']\n"a" = 3\n',
+    '"a.b" = 1\n[t]\n"u.a" = 2\n',
+    't . a = 2\nt.u . a = 3\n',
+    'a = 2\r\n[t]\r\na = 3\r\n\r\n[t.u]\r\na = 4\r\n',
+    '[t.u]\na = 2\n[t]\na = 3\n',
+    '[t]\n[t.u]\n[t.u.v]\na = 1\n',
+    't = { a = 2, u = { a = 3 } } # inline\n',
+    'a = [\n  3, # three\n  4,\n]\n',
+    'a = [[1, 2], ["x"]]\n[t]\nb = [{ k = 1 }, { k = 2 }]\n',
+    'a = 1979-05-27T07:32:00Z\n[t]\na = 0x10\nb = 1_000\n',
+    'a = -0.0\n[t]\na = inf\n',
+    'a = ""\n[t]\na = ""\nb = []\n',
+    '\n\n# only comments\n   \n',
+    'a=2\n[ t ]\na=3\n[ t . u ]\na=4\n',
+    '[t]\na = 2\n\n[x]\ny = 1\n\n[t.w]\nz = 1\n',
+    '"" = 1\n[t]\n"é ü" = 2\n',
+    'a = """one\\\n   line"""\n',
+)
+TRICKY_DEFAULTS = ({}, {"a": 1}, {"a": 1, "t": {"a": 1, "b": [1, 2], "u": {"a": 1}}}, {"t": {"u": {"v": {"a": 1}}}, "note": "n"})
+
+
+def _unit_tricky(_):
+    import tomlkit
+
+    app = f"verif-c20-{os.getpid()}"
+    u = Unit()
+    for ui, utxt in enumerate(TRICKY_USER):
+        try:
+            user = json.loads(json.dumps(tomlkit.parse(utxt).unwrap(), default=str))
+        except Exception as e:  # the harness's own documents must be valid TOML
+            raise RuntimeError(f"tricky user document {ui} is not valid TOML: {e}")
+        for dflt in TRICKY_DEFAULTS:
+            for sd in (0, 1, 2):
+                u.states += 1
+                u.nontrivial += 1
+                u.evaluations += 1
+                u.transitions += 1
+                for sym, det in run_pair(app, dflt, user, sd, 0, utxt=utxt)[:1]:
+                    case = {"kind": "tricky", "default": dflt, "user_index": ui, "style": sd}
+                    u.violation(f"config:{sym}", f"user file {utxt!r}: {det}", case, size=len(js(dflt)) + len(utxt))
+    u.sample({"kind": "hand-written user documents", "n": len(TRICKY_USER), "example": TRICKY_USER[0]}, cap=1)
+    return u.result()
+
+
+def _dispatch(args):
+    return _unit_tricky(args) if args[0] == "tricky" else _unit(args)
+
+
 def _unit(args):
     kind, dlist, opts, styles = args
     ctx = _G["ctx"]
@@ -325,8 +389,9 @@ def run(ctx):
         for ch in chunked(dl6, ctx.workers):
             units.append(("first", ch, None, None))
         space = {"default_docs_4paths": len(dl), "default_docs_6paths_first_run": len(dl6)}
+    units.append(("tricky", None, None, None))
     agg = Agg()
-    for r in ctx.pmap(_unit, units):
+    for r in ctx.pmap(_dispatch, units):
         agg.add(r)
     agg.extra["space"] = space
     ctx.selfcheck(agg.nontrivial > 0, "no override case")
@@ -340,5 +405,12 @@ def run_case(ctx, case):
     if case["kind"] == "first":
         probs = first_run(app, case["default"], case["style"])
         return {"default_toml": render(case["default"], case["style"]), "violations": [list(p) for p in probs]}
+    if case["kind"] == "tricky":
+        import tomlkit
+
+        utxt = TRICKY_USER[case["user_index"]]
+        user = json.loads(json.dumps(tomlkit.parse(utxt).unwrap(), default=str))
+        probs = run_pair(app, case["default"], user, case["style"], 0, utxt=utxt)
+        return {"default_toml": render(case["default"], case["style"]), "user_toml": utxt, "violations": [list(p) for p in probs]}
     probs = run_pair(app, case["default"], case["user"], case["styles"][0], case["styles"][1])
     return {"default_toml": render(case["default"], case["styles"][0]), "user_toml": render(case["user"], case["styles"][1]), "violations": [list(p) for p in probs]}
